@@ -120,6 +120,7 @@ impl FixtureDatabase {
                         Self::bind_local(local_vars, name, line);
                     }
                     self.collect_local_variables(&for_stmt.body, line_index, local_vars);
+                    self.collect_local_variables(&for_stmt.orelse, line_index, local_vars);
                 }
                 Stmt::AsyncFor(for_stmt) => {
                     let line =
@@ -130,9 +131,11 @@ impl FixtureDatabase {
                         Self::bind_local(local_vars, name, line);
                     }
                     self.collect_local_variables(&for_stmt.body, line_index, local_vars);
+                    self.collect_local_variables(&for_stmt.orelse, line_index, local_vars);
                 }
                 Stmt::While(while_stmt) => {
                     self.collect_local_variables(&while_stmt.body, line_index, local_vars);
+                    self.collect_local_variables(&while_stmt.orelse, line_index, local_vars);
                 }
                 Stmt::If(if_stmt) => {
                     self.collect_local_variables(&if_stmt.body, line_index, local_vars);
@@ -168,8 +171,55 @@ impl FixtureDatabase {
                 }
                 Stmt::Try(try_stmt) => {
                     self.collect_local_variables(&try_stmt.body, line_index, local_vars);
+                    for handler in &try_stmt.handlers {
+                        let rustpython_parser::ast::ExceptHandler::ExceptHandler(h) = handler;
+                        if let Some(ref name) = h.name {
+                            let line =
+                                self.get_line_from_offset(h.range.start().to_usize(), line_index);
+                            Self::bind_local(local_vars, name.to_string(), line);
+                        }
+                        self.collect_local_variables(&h.body, line_index, local_vars);
+                    }
                     self.collect_local_variables(&try_stmt.orelse, line_index, local_vars);
                     self.collect_local_variables(&try_stmt.finalbody, line_index, local_vars);
+                }
+                Stmt::Import(import_stmt) => {
+                    // `import a.b` binds `a`; `import a.b as c` binds `c`
+                    let line =
+                        self.get_line_from_offset(import_stmt.range.start().to_usize(), line_index);
+                    for alias in &import_stmt.names {
+                        let name = match alias.asname {
+                            Some(ref asname) => asname.to_string(),
+                            None => alias.name.split('.').next().unwrap_or("").to_string(),
+                        };
+                        Self::bind_local(local_vars, name, line);
+                    }
+                }
+                Stmt::ImportFrom(import_from) => {
+                    let line =
+                        self.get_line_from_offset(import_from.range.start().to_usize(), line_index);
+                    for alias in &import_from.names {
+                        let name = match alias.asname {
+                            Some(ref asname) => asname.to_string(),
+                            None => alias.name.to_string(),
+                        };
+                        Self::bind_local(local_vars, name, line);
+                    }
+                }
+                Stmt::FunctionDef(func_def) => {
+                    let line =
+                        self.get_line_from_offset(func_def.range.start().to_usize(), line_index);
+                    Self::bind_local(local_vars, func_def.name.to_string(), line);
+                }
+                Stmt::AsyncFunctionDef(func_def) => {
+                    let line =
+                        self.get_line_from_offset(func_def.range.start().to_usize(), line_index);
+                    Self::bind_local(local_vars, func_def.name.to_string(), line);
+                }
+                Stmt::ClassDef(class_def) => {
+                    let line =
+                        self.get_line_from_offset(class_def.range.start().to_usize(), line_index);
+                    Self::bind_local(local_vars, class_def.name.to_string(), line);
                 }
                 _ => {}
             }
